@@ -6,6 +6,8 @@ reference temperatures, constants and time step -- are set up under five differe
 code.  Tendencies (dry, moist, Held-Suarez forcing, shallow water) and multi-step trajectories (SIL3 with
 filters, semi-implicit leapfrog) are converted back to SI and compared between ALL pairs of scales
 (ln ps after removing the ln(pressure unit) shift).
+
+Extensions after the seeded-breakage rounds (DESIGN.md 8.5): The shallow-water tendency is evaluated a second time through a second equation object on the same Grid and must be identical (nothing cached may be rescaled in place).
 """
 import itertools
 import numpy as np
